@@ -306,6 +306,38 @@ theorem excl_mark_order_counterexample :
   decide
 
 
+/-- PROVED PART of the marker statement (`_partial`; the full statement is refuted above): in a cache
+    rebuilt from annotated objects with distinct uids, whenever all holders of a CPU agree on the
+    exclusive policy, the CPU's marker is that policy — hence independent of the delivery order.
+    Missing for the full statement: holders that disagree (last writer wins), and live histories
+    with releases (`release` never restores the marker of a CPU that stays held). -/
+theorem excl_mark_build_partial (topo : List Nat) (l : List PodAlloc) (hl : (l.map (·.uid)).Nodup)
+    (c e : Nat) (hheld : ∃ a ∈ l, c ∈ a.cpus) (hagree : ∀ a ∈ l, c ∈ a.cpus → a.excl = e) :
+    markOf (build topo l).mark c = e := by
+  have hfold : build topo l = l.foldl (update topo) St.init := by
+    unfold build run
+    rw [List.foldl_map]
+    rfl
+  have h := foldl_update_fresh topo l St.init hl (by simp [St.init])
+    (by intro c e hex; simp [St.init] at hex)
+  rw [hfold]
+  apply h.1 c e
+  · obtain ⟨a, ha, hc⟩ := hheld
+    exact ⟨a, by rw [h.2]; simp [ha], hc⟩
+  · intro p hp hc
+    rw [h.2] at hp
+    simp only [St.init, List.append_nil, List.mem_reverse] at hp
+    exact hagree p hp hc
+
+theorem excl_mark_order_independent_partial (topo : List Nat) (l₁ l₂ : List PodAlloc) (hp : l₁.Perm l₂)
+    (hl : (l₁.map (·.uid)).Nodup) (c e : Nat) (hheld : ∃ a ∈ l₁, c ∈ a.cpus)
+    (hagree : ∀ a ∈ l₁, c ∈ a.cpus → a.excl = e) :
+    markOf (build topo l₁).mark c = markOf (build topo l₂).mark c := by
+  rw [excl_mark_build_partial topo l₁ hl c e hheld hagree]
+  rw [excl_mark_build_partial topo l₂ ((hp.map _).nodup_iff.1 hl) c e
+    (by obtain ⟨a, ha, hc⟩ := hheld; exact ⟨a, hp.mem_iff.1 ha, hc⟩)
+    (fun a ha => hagree a (hp.mem_iff.2 ha))]
+
 /-! ## C. the codec: CPU-set text and the persisted record -/
 
 /-- **T1 cpuset_roundtrip**: for every finite CPU set within `[0, 4096]` (as a strictly ascending
@@ -456,6 +488,21 @@ theorem rsv_allocated_eq_sum (rid node : Nat) (once : Bool) (decl : Rsv.Req) (h 
     (Rsv.run (Rsv.newInfo rid node once decl, []) h).1.allocated d =
       Rsv.sumMasked decl d (Rsv.run (Rsv.newInfo rid node once decl, []) h).2 :=
   Rsv.rebuilt_allocated_eq_sum rid node once decl h d
+
+/-- PROVED PART (`_partial`) of "the rebuilt reservation cache equals the live one for every delivery
+    order": it holds whenever every Reservation is delivered before the pods assigned to it (the
+    ReservationInfo exists when its pods are replayed; the pods themselves in any order, by
+    `rsv_order_independent`).  Missing for the full statement: a pod delivered before its Reservation
+    is dropped (counterexample below). -/
+theorem rsv_rebuilt_eq_live_partial (rid node : Nat) (once : Bool) (decl : Rsv.Req) (h : List Rsv.LiveOp)
+    (l : List (Nat × Rsv.Req)) (hl : l.Perm (Rsv.run (Rsv.newInfo rid node once decl, []) h).2)
+    (nd : (l.map Prod.fst).Nodup) :
+    (∀ d, (Rsv.run (Rsv.newInfo rid node once decl, []) h).1.allocated d =
+          (Rsv.build (Rsv.newInfo rid node once decl) l).allocated d) ∧
+    (Rsv.run (Rsv.newInfo rid node once decl, []) h).1.pods.Perm (Rsv.build (Rsv.newInfo rid node once decl) l).pods := by
+  have h1 := Rsv.live_eq_rebuilt rid node once decl h
+  have h2 := Rsv.build_perm_fresh hl nd rid node once decl
+  exact ⟨fun d => (h1.1 d).trans (h2.1 d).symm, h1.2.trans h2.2.symm⟩
 
 /-- FULL STATEMENT (does NOT hold for the code as written): the reservation cache rebuilt from the
     surviving objects is independent of the relative delivery order of pods and reservations.
